@@ -375,8 +375,11 @@ def unprefix (h : Bytes) : Bytes :=
   | some x => trimSpace x
   | none => h
 
-/-- `BuildTarget.UnprefixedHashes` writes through `target.Hashes[:]`: the target itself afterwards. -/
-def afterHashCheck (t : Target) : Target := { t with hashes := t.hashes.map unprefix }
+/-- The target after `BuildTarget.UnprefixedHashes` ran (`checkRuleHashes` calls it after every build).
+    `aliases`: the regenerated fact "the prefixes are stripped through `target.Hashes[:]`, i.e. inside the target";
+    when the function works on a copy the target is untouched. -/
+def afterHashCheck (aliases : Bool) (t : Target) : Target :=
+  if aliases then { t with hashes := t.hashes.map unprefix } else t
 
 /-- `BuildCouldModifyTarget`. -/
 def couldModify (t : Target) : Bool := t.postBuild || !t.outputDirs.isEmpty
